@@ -1,6 +1,7 @@
 /* Shared by h19_clone.c / h07_ser.c / h17_*.c: builders for value trees of a CONCRETE shape with symbolic contents and a
  * deep comparison along the same shape (sets `bad`).  Shapes: 0 char, 1 unknown, 2 n/a, 3 number, 4 list[char,n/a],
- * 5 table{a:char}, 6 list[list[char]], 7 table{a:list[char]}. */
+ * 5 table{a:char}, 6 list[list[char]], 7 table{a:list[char]}, 8 number with uncertainty (state constructed directly: arbitrary
+ * text / digit strings / sign / scale / quoted flag of concrete lengths), 9 list[number with uncertainty]. */
 #ifndef VALUE_SHAPES_H
 #define VALUE_SHAPES_H
 #ifdef NORM_SINGLETONS
@@ -28,6 +29,16 @@ static cif_value_tp *mk_numb(void) {
     rc = cif_value_parse_numb(v, t); V_ASSUME(rc == CIF_OK);
     return v;
 }
+/* a number in an arbitrary state of the representation (struct numb_value_s): text of 3 units, 2 digits, 1 or 0 su digits */
+static cif_value_tp *mk_numb_state(void) {
+    cif_value_tp *v = mk_kind(CIF_UNK_KIND); UChar *t = (UChar *) malloc(4 * sizeof(UChar)); char *d = (char *) malloc(3), *su = (char *) malloc(2);
+    V_MALLOC_OK(t); V_MALLOC_OK(d); V_MALLOC_OK(su);
+    t[0] = vnd_u16(); t[1] = vnd_u16(); t[2] = vnd_u16(); t[3] = 0; V_ASSUME(t[0] != 0 && t[1] != 0 && t[2] != 0);
+    d[0] = (char) vnd_range('0', '9'); d[1] = (char) vnd_range('0', '9'); d[2] = 0; su[0] = (char) vnd_range('0', '9'); su[1] = 0;
+    v->as_numb.kind = CIF_NUMB_KIND; v->as_numb.quoted = vnd_bool() ? CIF_QUOTED : CIF_NOT_QUOTED; v->as_numb.text = t; v->as_numb.digits = d; v->as_numb.su_digits = su;
+    v->as_numb.sign = vnd_bool() ? 1 : -1; v->as_numb.scale = vnd_range(-3, 3);
+    return v;
+}
 static cif_value_tp *build(int shape) {
     cif_value_tp *v, *e, *f; int rc;
     switch (shape) {
@@ -35,6 +46,8 @@ static cif_value_tp *build(int shape) {
     case 1: return mk_kind(CIF_UNK_KIND);
     case 2: return mk_kind(CIF_NA_KIND);
     case 3: return mk_numb();
+    case 8: return mk_numb_state();
+    case 9: v = mk_kind(CIF_LIST_KIND); e = mk_numb_state(); rc = cif_value_insert_element_at(v, 0, e); V_ASSUME(rc == CIF_OK); cif_value_free(e); return v;
     case 4: v = mk_kind(CIF_LIST_KIND); e = mk_char(); rc = cif_value_insert_element_at(v, 0, e); V_ASSUME(rc == CIF_OK); cif_value_free(e);
             e = mk_kind(CIF_NA_KIND); rc = cif_value_insert_element_at(v, 1, e); V_ASSUME(rc == CIF_OK); cif_value_free(e); return v;
     case 5: v = mk_kind(CIF_TABLE_KIND); e = mk_char(); rc = cif_value_set_item_by_key(v, KEYA, e); V_ASSUME(rc == CIF_OK); cif_value_free(e); return v;
@@ -57,6 +70,10 @@ static void same_scalar(cif_value_tp *a, cif_value_tp *b) {
         for (i = 0; i < 4; i++) { if (a->as_numb.text[i] != b->as_numb.text[i]) bad = 1; if (!a->as_numb.text[i]) break; }
         for (i = 0; i < 3; i++) { if (a->as_numb.digits[i] != b->as_numb.digits[i]) bad = 1; if (!a->as_numb.digits[i]) break; }
         if ((a->as_numb.su_digits == NULL) != (b->as_numb.su_digits == NULL)) bad = 1;
+        if (a->as_numb.su_digits != NULL && b->as_numb.su_digits != NULL) {
+            if (a->as_numb.su_digits == b->as_numb.su_digits) bad = 1;
+            for (i = 0; i < 3; i++) { if (a->as_numb.su_digits[i] != b->as_numb.su_digits[i]) bad = 1; if (!a->as_numb.su_digits[i]) break; }
+        }
     }
 }
 /* deep comparison along the concrete shape */
@@ -64,7 +81,9 @@ static void same(int shape, cif_value_tp *a, cif_value_tp *b) {
     cif_value_tp *x = NULL, *y = NULL; size_t n = 0, m = 0;
     if (a == b || a->kind != b->kind) { bad = 1; return; }
     switch (shape) {
-    case 0: case 1: case 2: case 3: same_scalar(a, b); break;
+    case 0: case 1: case 2: case 3: case 8: same_scalar(a, b); break;
+    case 9: cif_value_get_element_count(a, &n); cif_value_get_element_count(b, &m); if (n != 1 || m != 1) { bad = 1; return; }
+            cif_value_get_element_at(a, 0, &x); cif_value_get_element_at(b, 0, &y); same_scalar(x, y); break;
     case 4: cif_value_get_element_count(a, &n); cif_value_get_element_count(b, &m); if (n != 2 || m != 2) { bad = 1; return; }
             cif_value_get_element_at(a, 0, &x); cif_value_get_element_at(b, 0, &y); same_scalar(x, y);
             cif_value_get_element_at(a, 1, &x); cif_value_get_element_at(b, 1, &y); same_scalar(x, y); break;
